@@ -144,6 +144,11 @@ def enumerated_family():
         # larger l
         dict(inn=[(1, 3, O), (2, 1, O)], out=[(2, 3, O), (1, 1, O)], shared=False),
         dict(inn=[(1, 3, O), (1, 3, E)], out=[(1, 3, E), (1, 3, O)], path_normalization="path", f_in=2, f_out=2),
+        # biases=True next to odd scalars / vectors of both parities: the specification gives NO bias on 0o, 1o, 1e (the demo layout)
+        dict(inn=[(2, 0, E), (3, 0, O), (1, 1, O)], out=[(2, 0, E), (2, 0, O), (1, 1, O), (1, 0, E)], biases=True),
+        dict(inn=[(2, 0, E), (3, 0, O), (1, 1, O), (1, 1, E)], out=[(2, 0, O), (1, 0, E), (1, 1, E), (1, 1, O)], biases=True, f_in=2, f_out=2,
+             path_normalization="path", optimize=False),
+        dict(inn=[(1, 0, E), (2, 0, O)], out=[(2, 0, O), (2, 0, E)], biases=[False, True]),
     ]
     for j, kw in enumerate(extra):
         fam.append(LConfig(f"X{j:03d}", kw.pop("inn"), kw.pop("out"), kw.pop("ins", None), **kw))
